@@ -227,10 +227,24 @@ def run(F, rep):
     rets = [r for r in um.walk() if r.get('k') == 'Return']
     rep.check(bool(ins) and all(um.cfg().node_dominates(ins[0], r) for r in rets) and render(nth_arg(ins[0], 0)) == render(rets[0]['c'][0]), 'C13.B1', 'utilities makeUniqueId|reserves', um.where(),
               'the printer-side makeUniqueId(idList) does not insert the id it returns', 'returned id inserted into the list')
-    wl = [w for w in um.walk() if w.get('k') == 'While']
-    rep.check(bool(wl) and 'idList.count(id) != 0' in render(role(wl[0], 'cond')), 'C13.B1', 'utilities makeUniqueId|collision-loop', um.where(), 'no loop over idList.count(id)', 'advances until the id is unused')
-    wl = [w for w in gen.walk() if w.get('k') == 'While']
-    rep.check(bool(wl) and 'mIdList.count(id) != 0' in render(role(wl[0], 'cond')), 'C13.B1', 'AnnotatorImpl::makeUniqueId|collision-loop', gen.where(), 'no loop over mIdList.count(id)', 'advances until the id is unused')
+    def _unused_at_exit(g, lst):
+        """at every return of the generator the returned id is known to be absent from the list (fact of the loop exit, however the loop is
+        written: `while (list.count(id) != 0)`, `while (true) { ...; if (list.count(id) == 0) break; }`, a find() == end() test)"""
+        from engines import facts_x
+        loops = [w for w in g.walk() if w.get('k') in ('While', 'Do', 'For')]
+        rets_ = [r for r in g.walk() if r.get('k') == 'Return' and r.get('c') and g.enclosing_lambda(r) is None]
+        if not loops or not rets_:
+            return False
+        for r in rets_:
+            v = render(r['c'][0])
+            good = {('%s.count(%s) != 0' % (lst, v), False), ('%s.count(%s) == 0' % (lst, v), True), ('%s.count(%s) > 0' % (lst, v), False),
+                    ('%s.find(%s) == %s.end()' % (lst, v, lst), True), ('%s.find(%s) != %s.end()' % (lst, v, lst), False), ('%s.count(%s)' % (lst, v), False)}
+            fx = facts_x(F, g, r) or set()
+            if not (fx & good):
+                return False
+        return True
+    rep.check(_unused_at_exit(um, 'idList'), 'C13.B1', 'utilities makeUniqueId|collision-loop', um.where(), 'the id returned is not known to be absent from idList (no loop exit on idList.count(id) == 0)', 'advances until the id is unused')
+    rep.check(_unused_at_exit(gen, 'mIdList'), 'C13.B1', 'AnnotatorImpl::makeUniqueId|collision-loop', gen.where(), 'the id returned is not known to be absent from mIdList (no loop exit on mIdList.count(id) == 0)', 'advances until the id is unused')
 
     # ------------------------------------------------------------------ X: indexed traversals
     rep.rule('C13.X1', 'in annotator.cpp every child read inside an index loop (i < owner->kindCount()) is read with that loop\'s own index: with another index the hash / id list is built from the wrong child, '
